@@ -45,6 +45,37 @@ add("C17", "exploration", "online stationarity monitor on undriven runs, verdict
     "psi=1, mu=0 with no drive: at every update return |psi-1| <= 1e-12 and mu, currents, induced potential exactly zero, adaptive dt grows to dt_max, on irregular/smoothed/holed meshes with unpinned terminals, gamma/u grid, screening. dt_max is drawn inside the mesh's explicit stability bound for the verdict; runs above the bound are classified by mechanism (known finding).",
     "stability bound from a dense eigenvalue of the reference Laplacian", "DESIGN.md 4/C17")
 
+add("C04", "exploration", "covariance postconditions on the real operator builders / live MeshOperators + differential pairs of gauge-shifted runs",
+    "Operator level: for random chi, A, psi the built covariant Laplacian/gradient must transform covariantly and the supercurrent must be unchanged, through fresh builds and in-place refreshes (incl. pure-gauge vs exactly-zero potentials, pinned rows). Run level: pairs of full runs whose applied potential differs by a constant vector (0.3-30x max|A|), partner started from the gauge image; every update return compared modulo gauge/global phase and mu constant; dt sequences must coincide.",
+    "runs are kept inside the explicit scheme's stability bound (harness-computed) so that rounding is not amplified; gate 1e-7 (10x tolerance with screening)", "DESIGN.md 4/C04")
+add("C07", "exploration", "geometric postconditions on Device.make_mesh against an independent clipped-Voronoi / winding-number oracle",
+    "Every triangle (orientation, tiling area, containment), boundary site/edge (on outlines, exactly), Euler characteristic, edge vectors/lengths/centres, and - where the triangulation is locally Delaunay with unencroached boundary and an unambiguous one-piece cell - every cell area and dual edge length against half-plane-clipped Voronoi cells intersected with the domain polygon; terminal edges/sites/length against the boundary covered by the terminal polygon. Also after re-meshing and in-place translation of the same Device.",
+    "shapely for polygon intersection/area/length; skipped (ineligible) sites counted with reasons", "DESIGN.md 4/C07")
+add("C08", "exploration", "differential runs of one physical problem stated in two unit systems + CODATA flux-quantum identity per triangle",
+    "The same physical problem (device, field, currents) is restated in another unit system on the same dimensionless mesh and run; dimensionless states at every update, dt sequences, physical current density, vector potential and field at fixed physical points must agree; A_scale/Bc2/A0/K0 are compared with CODATA-based values and the link phase around every mesh triangle must equal 2 pi flux / Phi_0.",
+    "runs kept inside the stability bound; CODATA 2018; gate 1e-7", "DESIGN.md 4/C08")
+add("C09", "exploration", "differential execution across schedules: fresh processes x thread counts x hash seeds x output locations, digest comparison",
+    "Each configuration runs in fresh processes under NUMBA_NUM_THREADS 1..16, BLAS threads, PYTHONHASHSEED 0/1/random, file/temp output, other cwd, repeated; sha256 digests of mesh arrays, every update state, recorded frames/attrs/records and dt sequences must all coincide. In-process: NaN-poisoned kernel buffer fully overwritten; global numpy RNG untouched.",
+    "one machine / one numba build; a race is visible only as a differing result", "DESIGN.md 4/C09")
+add("C11", "exploration", "differential runs across recording configurations and across every split point of a resumed run",
+    "One physics input under 7-9 recording configurations (save_every, file/temp, probes, progress reporting): frames with the same step label bit-identical, update-state and dt sequences identical. Fixed-step static runs split at N1+N2 and resumed from the reloaded Solution must reproduce the uninterrupted frames bit for bit, with and without screening.",
+    "sha256 of dataset bytes", "DESIGN.md 4/C11")
+add("C14", "exploration", "round-trip differential on objects (hdf5, pickle, copy) with field-by-field comparison and behavioural equivalence",
+    "Devices (hdf5 with/without mesh, pickle, copy; mesh full/compressed/from_triangulation), Solutions (in place / copy; every option incl. None-valued; every recorded step; dynamics; drives evaluated at random points/times) and composite parameters carried through a Solution file are written and read back with the real functions and compared bit-wise; reloaded devices must solve identically.",
+    "h5py/pickle correct; time_created excluded", "DESIGN.md 4/C14")
+add("C15", "fault_enumeration", "fault injection at every (stage, step, hook point) incl. mid-frame-writer and line-level sys.monitoring failpoints, audited from outside",
+    "For every step 0..N and both stages RuntimeError/KeyboardInterrupt are injected at update entry/exit, save entry/middle(each dataset)/exit; explicit path or temp; pre-existing files; pause answers. Audit: output reopens r and r+, frames == completed saves and pass the C05 checker as a prefix, no .tmp/tempdir/stray file, pre-existing files byte-identical, error propagates / cancellation returns a usable partial solution. Thorough adds statement-level failpoints in _run_stage, save_time_step, __enter__, close, _create_output_file.",
+    "faults inside h5py's C code not modelled; exhaustive within the listed (case, step, point, exception) grid", "DESIGN.md 4/C15")
+add("C18", "exploration", "postconditions on polygon/device operations against a winding-number membership oracle, shoelace areas and byte-level aliasing checks",
+    "Random boxes/circles/ellipses (any vertex count, orientation, centre, scale over four decades): stored points closed+CCW, set operations (methods, operators, classmethods) vs membership of operands at probe points away from outlines, inclusion-exclusion, affine transforms (areas, mapped points, mapped vertices, reflections), inplace/non-inplace/copy aliasing, Device.contains_points vs film-and-not-holes, Device-level transforms.",
+    "probe points closer than 1e-6 (relative) to an outline are not judged", "DESIGN.md 4/C18")
+add("C19", "fault_enumeration", "negative enumeration of ill-posed inputs with filesystem / temp-dir / hook watch",
+    "Each member of 38 ill-posed classes (magnitudes from gross to 1e-6; with/without output path) must raise, and afterwards: output directory empty, no TemporaryDirectory created, DataHandler never entered, update never called.",
+    "callables unbalanced in a window < 25% are observations only", "DESIGN.md 4/C19")
+add("C20", "exploration", "differential against direct SI sums and loop quadrature; Solution-level parts vs direct sums from its own currents",
+    "biot_savart_2d (vector/scalar, units, linearity, additivity over sources) vs a numpy Biot-Savart sum; current_loop_vector_potential vs spectral quadrature incl. near/on-axis points; convert_field round trips and B = mu0 H; on solved devices field_at_position / vector_potential_at_position: total = sum of parts, parts = direct sums from the solution's own sheet currents and areas in several units, applied part = the user's parameter.",
+    "CODATA 2018 mu0, gate 1e-7", "DESIGN.md 4/C20")
+
 NOT_APPLICABLE = []
 
 
